@@ -114,6 +114,13 @@ func genC03(r *rand.Rand, run int, tier string) *vm.Plan {
 	tx := h.add(vm.Op{K: "build", A: key, Blk: &auth, Ent: entropy(r), Out: h.slot()})
 	perm := []int{0}
 	idx := 0
+	var seq []ref.Block // blocks of L' after the authority block
+	var isExtra []bool
+	var borrowable []ref.Check // checks that occur elsewhere in the request
+	for _, cb := range common {
+		borrowable = append(borrowable, cb.Checks...)
+	}
+	borrowable = append(append(borrowable, az.Checks...), auth.Checks...)
 	for ci := 0; ci <= len(common); ci++ {
 		for k := range pos {
 			if pos[k] == ci {
@@ -127,16 +134,43 @@ func genC03(r *rand.Rand, run int, tier string) *vm.Plan {
 					if ro := g.RuleOnlyBlock(targets, later); len(ro.Rules) > 0 {
 						extra = ro
 					}
+				} else if len(borrowable) > 0 && r.Intn(3) == 0 {
+					// not check-free: the block carries a verbatim copy of a check that occurs elsewhere
+					// in the request and, thanks to its own facts, passes it (kept only if the reference
+					// says so, below); whether the same text passes anywhere else is nobody's business
+					extra.Checks = append(extra.Checks, borrowable[r.Intn(len(borrowable))])
 				}
-				tx = h.attenuate(tx, extra)
+				seq = append(seq, extra)
+				isExtra = append(isExtra, true)
 				idx++
 			}
 		}
 		if ci < len(common) {
-			tx = h.attenuate(tx, common[ci])
+			seq = append(seq, common[ci])
+			isExtra = append(isExtra, false)
 			idx++
 			perm = append(perm, idx)
 		}
+	}
+	// an extra block must not fail a check of its own (the twins are compared on everything else)
+	if o := ref.Authorize(&ref.Token{Blocks: append([]ref.Block{auth}, seq...)}, az, 400); true {
+		for i := range seq {
+			if !isExtra[i] || len(seq[i].Checks) == 0 {
+				continue
+			}
+			drop := o.Uncertain || o.Class == ref.VLimit || o.Class == ref.VOther
+			for _, f := range o.FailedChecks {
+				if f.Block == i+1 {
+					drop = true
+				}
+			}
+			if drop {
+				seq[i].Checks = nil
+			}
+		}
+	}
+	for i := range seq {
+		tx = h.attenuate(tx, seq[i])
 	}
 	var qs []ref.Rule
 	for i := 1 + r.Intn(3); i > 0; i-- {
@@ -206,7 +240,7 @@ func genC03(r *rand.Rand, run int, tier string) *vm.Plan {
 func init() {
 	register(&Spec{
 		ID: "C03", Level: "exploration", Quick: 3000, Thorough: 300000,
-		Rule: "twin delegation histories from the same authority content: lineage L carries 0-2 check-bearing blocks, lineage L' carries the same blocks plus 1-3 extra CHECK-FREE blocks (facts and rules generated against the authorizer's policies/checks and the other blocks' checks) inserted at random positions; both are authorized with the same authorizer content and the same panel of queries by fresh authorizers (calm schedule). Twin agreement: same verdict class, same set of failed checks (block indexes remapped through the known insertion positions), same query result sets. Visibility of authority/authorizer facts in later blocks is decided by the reference verdict (C04 oracle) on the same runs. non-trivial = a twin pair was compared (distinct by plan hash)",
+		Rule: "twin delegation histories from the same authority content: lineage L carries 0-2 check-bearing blocks, lineage L' carries the same blocks plus 1-3 extra CHECK-FREE blocks (facts and rules generated against the authorizer's policies/checks and the other blocks' checks) inserted at random positions (a ninth of the extra blocks also carry a verbatim copy of a check that occurs elsewhere in the request and that, by the reference model, their own facts satisfy; rule-only extras over other blocks' facts); both are authorized with the same authorizer content and the same panel of queries by fresh authorizers (calm schedule). Twin agreement: same verdict class, same set of failed checks (block indexes remapped through the known insertion positions), same query result sets. Visibility of authority/authorizer facts in later blocks is decided by the reference verdict (C04 oracle) on the same runs; a third of the runs also deliver the authorizer's facts in two instalments around a first Authorize and compare with a fresh authorizer given everything at once. non-trivial = a twin pair was compared (distinct by plan hash)",
 		Gen: genC03,
 		Oracles: func(m *vm.VM) []vm.Oracle {
 			return []vm.Oracle{vm.Common{Prop: "C03"}, vm.AgreeOracle{Prop: "C03", Invariant: "scoping-twin-disagrees", Failed: true, Remap: true, Queries: true, SameAz: true}, vm.QueryOracle{Prop: "C03"}, vm.VerdictOracle{Prop: "C04"}}
